@@ -4,10 +4,10 @@ import vlib, session, smtpworld
 import stlsworld as W
 from stlsworld import Case
 
-REQUIRED = ['lookahead_empty_at_success', 'no_cleartext_survives', 'clear_wire_irrelevant_after_success',
-            'tls_commands_exact', 'pipelined_suffix_refused', 'wait_for_quit_inert',
-            'state_reset', 'mail_requires_new_greeting', 'starttls_when', 'offer_iff_certificate',
-            'failed_handshake_inert', 'ssl_only_by_handshake', 'starttls_row', 'sync_is_first_step']
+REQUIRED = ['sync_is_first_step', 'starttls_row', 'ssl_only_by_handshake', 'lookahead_empty_at_success', 'ssl_stays',
+            'clear_wire_irrelevant_after_success', 'no_cleartext_survives', 'pipelined_suffix_refused', 'wait_for_quit_inert',
+            'state_reset', 'mail_requires_new_greeting', 'starttls_when', 'starttls_refused_inside_tls',
+            'starttls_refused_without_esmtp', 'offer_iff_certificate', 'failed_handshake_inert', 'no_tls_without_handshake']
 
 CORR = {
     'script': 'model QsmtpModel.StartTlsSrv.run vs the whole server (harness/h_qsmtpd.c, scripted client): smtploop + tls_init + sync_pipelining/hasinput/wait_for_quit + data_pending',
